@@ -369,8 +369,8 @@ def run(ctx, anchors=None):
     # having decided them has a different condition set
     from . import c03_setup
     c03_setup.check_control_size(ctx, fb, prog)
-    ctx.rule("R05.4", "a session that was handed the commitment check cannot be finished before the check has run (shared with C03 R03.3)")
-    c03_setup.check_commitment_not_skipped(ctx, fb, prog, rule="R05.4")
+    ctx.rule("R05.5", "a session that was handed the commitment check cannot be finished before the check has run (shared with C03 R03.3)")
+    c03_setup.check_commitment_not_skipped(ctx, fb, prog, rule="R05.5")
     # ---- R05.3
     stepper = fb.fn("StepScript", file="debugger/interpreter.cpp")
     # the hash handed on for signing is the leaf hash as computed at construction: through the sink pointer, or kept by value
@@ -393,20 +393,21 @@ def run(ctx, anchors=None):
     ctx.site()
     ctx.inst(ok_exp and nexp > 0, "R05.3", "leaf-hash-exported-at-construction", ctor.loc(),
              "the constructor exports k through m_tapleaf_hash right after computing the leaf hash (before any branch is folded)")
-    sw = [s_ for s_ in S.find_switches(stepper) if "Iterate" in astq.estr(s_["cond"])]
-    done_ok = failed_ok = False
-    src = None
-    if sw:
-        for g in S.case_groups(sw[0]):
-            names = g.short_names()
-            if "Done" in names:
-                for n in g.nodes():
-                    if n["k"] == "opcall" and n["op"] == "=" and astq.estr(n["args"][0]).endswith("execdata.m_tapleaf_hash"):
-                        src = astq.estr(n["args"][1])
-                        done_ok = src.replace(" ", "").lstrip("*") in ("env.tce->m_tapleaf_hash",)
-            if "Failed" in names:
-                rets_ = [n for n in g.nodes() if n["k"] == "return"]
-                failed_ok = len(rets_) == 1 and astq.const_value(rets_[0].get("e")) == 0 and not any(n["k"] == "un" and n["op"] == "++" for n in g.nodes())
+    # the stepper's commitment prologue per state of Iterate(), on G-SYM outcomes (switch, if-chain or a held result alike)
+    _st, prol = c03_setup.commitment_prologue(fb, prog)
+    done_o, failed_o = prol.get("Done", []), prol.get("Failed", [])
+    if not done_o or not failed_o:
+        raise AnalysisBroken("R05.3: states Done / Failed of the commitment environment not found")
+    srcs = []
+    done_ok = True
+    for o in done_o:
+        got = [v for (k, v) in o.heap.items() if k[1] == "m_tapleaf_hash" and isinstance(k[0], tuple) and (k[0][0] == "f" and k[0][2] == "execdata" or k[0][0] == "obj")]
+        want_ok = bool(got) and all(isinstance(v, tuple) and v[0] == "f" and v[2] == "*" and isinstance(v[1], tuple) and v[1][0] == "f" and v[1][2] == "m_tapleaf_hash" and
+                                    isinstance(v[1][1], tuple) and v[1][1][0] == "f" and v[1][1][2] == "tce" for v in got)
+        srcs += [symx.show(v) for v in got]
+        done_ok = done_ok and want_ok
+    src = ", ".join(sorted(set(srcs))) or None
+    failed_ok = all(o.ret == symx.C(0) and c03_setup.advance_of(o) == 0 for o in failed_o)
     ctx.site(2)
     ctx.inst(done_ok, "R05.3", "signed-leaf-hash-is-derived-leaf-hash", stepper.loc(), "Done copies *tce->m_tapleaf_hash (the exported leaf hash) into execdata.m_tapleaf_hash",
              "the Done transition copies `%s` into the signing data; the leaf hash is *tce->m_tapleaf_hash (m_k has been folded with the path and is the Merkle root by then)" % src)
@@ -440,7 +441,7 @@ def size_pred_is(n):
 
 
 MUTANTS = [
-    dict(name="commitment-skipped-for-empty-script", file="instance.cpp", find="    env->done &= successor_script.size() == 0 && !tce;\n", replace="    env->done &= successor_script.size() == 0;\n", expect=["R05.4:pending-commitment-not-done"]),
+    dict(name="commitment-skipped-for-empty-script", file="instance.cpp", find="    env->done &= successor_script.size() == 0 && !tce;\n", replace="    env->done &= successor_script.size() == 0;\n", expect=["R05.5:pending-commitment-not-done"]),
     dict(name="step-swaps-branch-operands", file="debugger/interpreter.cpp", find="            ss_branch << m_k << node;", replace="            ss_branch << node << m_k;", expect=["R05.1:fold:then"]),
     dict(name="step-node-offset-off-by-one", file="debugger/interpreter.cpp", find="Span<const unsigned char> node(m_control.data() + TAPROOT_CONTROL_BASE_SIZE + TAPROOT_CONTROL_NODE_SIZE * m_i, TAPROOT_CONTROL_NODE_SIZE);",
          replace="Span<const unsigned char> node(m_control.data() + TAPROOT_CONTROL_BASE_SIZE - 1 + TAPROOT_CONTROL_NODE_SIZE * m_i, TAPROOT_CONTROL_NODE_SIZE);", expect=["R05.1:fold:slice"]),
